@@ -16,12 +16,21 @@ pub struct CapLogger;
 pub static RECORDS: Mutex<Vec<(log::Level, String)>> = Mutex::new(Vec::new());
 static LOGGER: CapLogger = CapLogger;
 
+/// Records are kept only while a check wants to look at them (C17); otherwise each record is formatted — as
+/// any real logger would — and dropped.
+pub static CAPTURE: std::sync::atomic::AtomicBool = std::sync::atomic::AtomicBool::new(false);
+
 impl log::Log for CapLogger {
     fn enabled(&self, _m: &log::Metadata) -> bool {
         true
     }
     fn log(&self, r: &log::Record) {
-        RECORDS.lock().unwrap().push((r.level(), format!("{}", r.args())));
+        let text = format!("{}", r.args());
+        if CAPTURE.load(std::sync::atomic::Ordering::Relaxed) {
+            RECORDS.lock().unwrap().push((r.level(), text));
+        } else {
+            std::hint::black_box(text.len());
+        }
     }
     fn flush(&self) {}
 }
@@ -87,6 +96,7 @@ fn observe(c: &Case) -> Option<Obs> {
 
 pub fn c17(ctx: &mut Ctx) {
     install_logger();
+    CAPTURE.store(true, std::sync::atomic::Ordering::Relaxed);
     let mut rng = ctx.rng.fork();
     let secrets = ["wJalrXUtnFEMI/K7MDENG+bPxRfiCYEXAMPLEKEY", "Zq9x8mT2vB4nH6kL1pS3dF5gJ7hK0aQwErTyUiOp"];
     // (a) renderings of the key types and of every public value reachable from them
@@ -245,10 +255,12 @@ pub fn c17(ctx: &mut Ctx) {
         if key_a.iter().zip(key_b.iter()).any(|(a, b)| a == b) && i == 0 {
             ctx.rep.notes.push("keys share a byte position; still distinct keys".into());
         }
+        // every fifth case: the provider hands out the key without a principal or session data
+        let identity = if i % 5 == 4 { "-".to_string() } else { s.identity.clone() };
         let mut ca = c.clone();
-        ca.answer = Answer::Key { key: key_a.clone(), identity: s.identity.clone() };
+        ca.answer = Answer::Key { key: key_a.clone(), identity: identity.clone() };
         let mut cb = c.clone();
-        cb.answer = Answer::Key { key: key_b.clone(), identity: s.identity.clone() };
+        cb.answer = Answer::Key { key: key_b.clone(), identity: identity.clone() };
         if kind == 7 {
             let e = Answer::Err(ProvErr::Sig("InvalidClientTokenId"));
             ca.answer = e.clone();
@@ -393,6 +405,13 @@ fn corpus(ctx: &mut Ctx, n: usize) -> Vec<Case> {
             2 => s.case.region = "r2".into(),
             4 => { s.case.prefixes = vec!["x-amz-".into(), "my-".into(), "a".into()]; s.case.ifreq = vec!["Accept".into()]; }
             5 => s.case.headers.retain(|(n, _)| !n.eq_ignore_ascii_case("host")),
+            8 => {
+                // wrong signatures of unusual shapes: empty, shorter than any prefix a log line might quote, non-ASCII
+                let sig = s.signature.clone();
+                let alt = ["", "a", "ab1", "a\u{e9}\u{e9}\u{e9}", "0000"][i / 9 % 5];
+                let alt = if s.case.uri.contains(&sig) && !alt.is_ascii() { "ab" } else { alt };
+                set_signature(&mut s.case, &sig, alt);
+            }
             _ => {}
         }
         out.push(s.case);
@@ -549,6 +568,48 @@ pub fn c18(ctx: &mut Ctx) {
                         ctx.rep.fail(Failure { kind: "ORACLE", op: "INTERLEAVE".into(), class: "c18-interleaved".into(), input: format!("{} validations in flight on one thread; this one: {}", g2.len(), c.describe()), imp: tog.clone(), model: String::new(), spec: alone.clone(), clause: "C18: a validation suspended at its key provider while others run on the same thread ends differently than on its own".into() });
                     }
                 }
+            }
+        }
+    }
+    // (a2) the process-wide log level is the application's business: with logging off and at Trace the outcome
+    // is the same (the flipping is switched off for this part)
+    {
+        imp::LOG_FLIP.store(false, std::sync::atomic::Ordering::Relaxed);
+        for (i, c) in cases.iter().enumerate().take(ctx.n(400, 4000)) {
+            log::set_max_level(log::LevelFilter::Off);
+            let quiet = outcome_line(c);
+            log::set_max_level(log::LevelFilter::Trace);
+            let loud = outcome_line(c);
+            ctx.rep.count("evaluations");
+            ctx.rep.count("evaluations.log_level");
+            if quiet != loud || quiet != reference[i] {
+                ctx.rep.fail(Failure { kind: "ORACLE", op: "LOGLEVEL".into(), class: "c18-log-level".into(), input: c.describe(), imp: format!("off: {} / trace: {}", quiet, loud), model: String::new(), spec: reference[i].clone(), clause: "C18: the outcome of a validation depends on the process-wide log level".into() });
+            }
+        }
+        imp::LOG_FLIP.store(true, std::sync::atomic::Ordering::Relaxed);
+    }
+    // (a3) validations that are started and abandoned (their future dropped while suspended at the provider)
+    // leave nothing behind: after many of them every validation still ends as it did
+    {
+        let mut arng = ctx.rng.fork();
+        let usable: Vec<usize> = (0..cases.len()).filter(|i| cases[*i].ready_err.is_none()).collect();
+        let mut abandoned = 0u64;
+        for _ in 0..ctx.n(300, 3000) {
+            let mut c = cases[*arng.pick(&usable)].clone();
+            c.pending_answer = 5;
+            c.pending_ready = arng.below(2) as u32;
+            c.req_ops.clear();
+            if imp::validate_abandoned(&c, 1 + arng.below(3)) == Some(false) {
+                abandoned += 1;
+            }
+        }
+        ctx.rep.add("abandoned_validations", abandoned);
+        for (i, c) in cases.iter().enumerate().take(60) {
+            let after = outcome_line(c);
+            ctx.rep.count("evaluations");
+            ctx.rep.count("evaluations.after_abandoned");
+            if after != reference[i] {
+                ctx.rep.fail(Failure { kind: "ORACLE", op: "ABANDON".into(), class: "c18-after-abandoned".into(), input: format!("after {} abandoned validations: {}", abandoned, c.describe()), imp: after, model: String::new(), spec: reference[i].clone(), clause: "C18: validations abandoned while suspended at the key provider changed the outcome of later ones".into() });
             }
         }
     }
